@@ -75,8 +75,21 @@ int main(int argc, char **argv)
                         put_value(f, ldexp((double)a_real_norm((a_size)n, s), -e));
                     }
                     /* the fixed-arity norms on the same scaled data */
-                    if (n == 2) { fputc(',', f); put_value(f, ldexp((double)a_real_norm2(s[0], s[c]), -e)); }
-                    if (n == 3) { fputc(',', f); put_value(f, ldexp((double)a_real_norm3(s[0], s[c], s[2 * c]), -e)); }
+                    /* ... in every argument order (the largest component first, in the middle, last) */
+                    if (n == 2)
+                    {
+                        fputc(',', f); put_value(f, ldexp((double)a_real_norm2(s[0], s[c]), -e));
+                        fputc(',', f); put_value(f, ldexp((double)a_real_norm2(s[c], s[0]), -e));
+                    }
+                    if (n == 3)
+                    {
+                        static int const perm[6][3] = {{0, 1, 2}, {0, 2, 1}, {1, 0, 2}, {1, 2, 0}, {2, 0, 1}, {2, 1, 0}};
+                        for (int q = 0; q < 6; ++q)
+                        {
+                            fputc(',', f);
+                            put_value(f, ldexp((double)a_real_norm3(s[perm[q][0] * c], s[perm[q][1] * c], s[perm[q][2] * c]), -e));
+                        }
+                    }
                 }
                 fputs("],\"norm2\":", f); put_value(f, n == 2 ? (double)a_real_norm2(p[0], p[c]) : 0.0);
                 fputs(",\"norm3\":", f); put_value(f, n == 3 ? (double)a_real_norm3(p[0], p[c], p[2 * c]) : 0.0);
@@ -89,6 +102,14 @@ int main(int argc, char **argv)
                     {
                         fputs(",\"twins\":0", f);
                     }
+                    /* ... and are judged by themselves as well */
+                    fputs(",\"u\":{\"sum\":", f); put_dyadic(f, (double)a_real_sum((a_size)n, p));
+                    fputs(",\"sum1\":", f); put_dyadic(f, (double)a_real_sum1((a_size)n, p));
+                    fputs(",\"sum2\":", f); put_dyadic(f, (double)a_real_sum2((a_size)n, p));
+                    fputs(",\"dot\":", f); put_dyadic(f, (double)a_real_dot((a_size)n, p, q));
+                    fputs(",\"mean\":", f); put_value(f, n ? (double)a_real_mean((a_size)n, p) : 0.0);
+                    fputs(",\"norm\":", f); put_value(f, (double)a_real_norm((a_size)n, p));
+                    fputc('}', f);
                 }
                 fputs("}\n", f);
                 ++n_events;
